@@ -35,32 +35,42 @@ def sigValidity (sig : Bytes) : Res Nat :=
 def verifyShapeOK (sig : Bytes) : Bool := !(verifyTests.any (shapeTest sig))
 
 /-- `secp256k1.VerifySignature(msg, sig, pubkey)` for 32/65/33-byte arguments: shape, then recovery must
-return exactly `pubkey`. -/
-def verifySignature (hash sig pub : Bytes) : Nat :=
+return exactly `pubkey`. (`rec` = the result of `RecoverPubkey(msg, sig)`, a pure function of the arguments,
+passed in so that it is computed once.) -/
+def verifySignatureWith (rec : Option Bytes) (sig pub : Bytes) : Nat :=
   if !verifyShapeOK sig then 0
-  else match Sky.C14.recoverPubkey sig hash with
+  else match rec with
     | none => 0
     | some p => if p == pub then 1 else 0
 
+def verifySignature (hash sig pub : Bytes) : Nat :=
+  verifySignatureWith (Sky.C14.recoverPubkey sig hash) sig pub
+
 /-- `cipher.VerifyPubKeySignedHash` as the CODE composes it (recover, compare, validity, verify) -/
-def verifyPubKeySignedHash (pub sig hash : Bytes) : Res Unit :=
-  match Sky.C14.recoverPubkey sig hash with
+def verifyPubKeySignedHashWith (rec : Option Bytes) (pub sig : Bytes) : Res Unit :=
+  match rec with
   | none => .err (.named "ErrInvalidSigPubKeyRecovery")
   | some p =>
     if p ≠ pub then .err (.named "ErrPubKeyRecoverMismatch")
     else match sigValidity sig with
-      | .ok 1 => if verifySignature hash sig pub == 1 then .ok () else .err (.named "ErrInvalidSigForMessage")
+      | .ok 1 => if verifySignatureWith rec sig pub == 1 then .ok () else .err (.named "ErrInvalidSigForMessage")
       | .ok _ => .err (.named "ErrInvalidSigValidity")
       | .err e => .err e
       | .panic p => .panic p
 
+def verifyPubKeySignedHash (pub sig hash : Bytes) : Res Unit :=
+  verifyPubKeySignedHashWith (Sky.C14.recoverPubkey sig hash) pub sig
+
 /-- `cipher.VerifyAddressSignedHash(addr, sig, hash)` with the address given as (version, key) and
 `addrOf` = RIPEMD160∘SHA256² supplied by the caller. -/
-def verifyAddressSignedHash (addrOf : Bytes → Bytes) (ver : Nat) (key : Bytes) (sig hash : Bytes) : Res Unit :=
-  match Sky.C14.recoverPubkey sig hash with
+def verifyAddressSignedHashWith (rec : Option Bytes) (addrOf : Bytes → Bytes) (ver : Nat) (key : Bytes) (sig : Bytes) : Res Unit :=
+  match rec with
   | none => .err (.named "ErrInvalidSigPubKeyRecovery")
   | some p =>
     if ver ≠ 0 ∨ key ≠ addrOf p then .err (.named "ErrInvalidAddressForSig")
-    else if verifySignature hash sig p == 1 then .ok () else .err (.named "ErrInvalidHashForSig")
+    else if verifySignatureWith rec sig p == 1 then .ok () else .err (.named "ErrInvalidHashForSig")
+
+def verifyAddressSignedHash (addrOf : Bytes → Bytes) (ver : Nat) (key : Bytes) (sig hash : Bytes) : Res Unit :=
+  verifyAddressSignedHashWith (Sky.C14.recoverPubkey sig hash) addrOf ver key sig
 
 end Sky.C10
